@@ -12,6 +12,9 @@ mod refmmr;
 mod world;
 
 use engine::*;
+
+#[global_allocator]
+static GLOBAL: engine::alloc::Counting = engine::alloc::Counting;
 use std::path::PathBuf;
 
 struct PropDef {
@@ -51,18 +54,18 @@ fn props() -> Vec<PropDef> {
 		p!("C05", "exploration", c05),
 		p!("C06", "exploration", c06, part),
 		p!("C07", "exploration", c07),
-		p!("C08", "exploration", c08),
+		p!("C08", "exploration", c08, part),
 		p!("C09", "fault_enumeration", c09),
 		p!("C10", "exploration", c10),
-		p!("C11", "exploration", c11),
+		p!("C11", "exploration", c11, part),
 		p!("C12", "exploration", c12, part),
 		p!("C13", "exploration", c13, part),
 		p!("C14", "exploration", c14),
 		p!("C15", "exploration", c15),
 		p!("C16", "exploration", c16),
 		p!("C17", "exploration", c17),
-		p!("C18", "exploration", c18),
-		p!("C19", "exploration", c19),
+		p!("C18", "exploration", c18, part),
+		p!("C19", "exploration", c19, part),
 		p!("C20", "exploration", c20),
 	]
 }
@@ -98,6 +101,18 @@ fn main() {
 			let cases: u32 = args[7].parse().expect("cases");
 			let ctx = Ctx::new(&args[3], tier, seed, root_dir(), def.level);
 			let code = child_pbt(&ctx, def.part.expect("part fn"), &args[4], seed, cases, std::path::Path::new(&args[8]));
+			std::process::exit(code);
+		}
+		if args[2] == "x" && args.len() >= 4 {
+			// gv child x <ID> <args...>: property-specific worker / crash children
+			let rest = &args[4..];
+			let code = match args[3].as_str() {
+				"C08" => props::c08::child(rest),
+				"C11" => props::c11::child(rest),
+				"C18" => props::c18::child(rest),
+				"C19" => props::c19::child(rest),
+				_ => 2,
+			};
 			std::process::exit(code);
 		}
 		if args[2] == "crash" && args.len() >= 6 {
